@@ -112,6 +112,8 @@ def rule_add_total(ctx, p, cfg, rid="R13"):
 
 def run_cfg(ctx, p, cfg):
     from rules import accessors, c03
+    from rules import c02
+    c02.rule_tree_max(ctx, p, cfg, "R14")   # records reach their appenders through the log macros only if the published maximum covers every node (C02.T2 re-evaluated)
     accessors.rule_fidelity(ctx, p, cfg, "R11")   # routing reads names, levels, additivity and appender lists through these
     c03.rule_error_isolation(ctx, p, cfg, "R12")   # a failing appender does not cost the later attachments their delivery
     rule_add_total(ctx, p, cfg, "R13")
